@@ -13,7 +13,7 @@ ID = 'C12'
 LEVEL = 'exploration'
 RULE = ('case = (0-4 children on a private server, each one of {one-shot running a cooperative loop, one-shot swallowing exceptions, idle persistent worker, busy '
         'persistent worker, already finished one-shot, persistent worker inside a context, context without workers, duplicate context registration attempt}, stop '
-        '{server.terminate(timeout=10), SIGTERM to the server pid}, delay between the last constructor returning and the stop {0, 50 ms, 500 ms}; a `starting` child is a RemoteWorker constructor still running in another thread 0/5/50 ms before the stop). Oracle within 10 s '
+        '{server.terminate(timeout=10), server.terminate(timeout=10, force=False), SIGTERM to the server pid}, delay between the last constructor returning and the stop {0, 50 ms, 500 ms}; a `starting` child is a RemoteWorker constructor still running in another thread 0/5/50 ms before the stop). Oracle within 10 s '
         'of the stop: no process started for this case is left (server, backend children, context helpers); every parent-side worker answers wait(5) with True '
         'under the guard, has has_error True / result None / error WorkerTerminatedError-or-None (finished workers keep their result); WorkerTerminatedError is '
         'required only for cooperative one-shot children when every child is cooperative or finished, the stop is terminate() and the delay is 500 ms. '
@@ -25,7 +25,7 @@ SHRINK_RUNS = 8
 TIME_BUDGET = {'quick': 170, 'thorough': 1700}
 CHILD = ['coop', 'swallow', 'idle_p', 'busy_p', 'finished', 'p_in_ctx', 'empty_ctx', 'dup_ctx', 'starting']
 REQUIRED = {'quick': {'child:' + c: 15 for c in CHILD}, 'thorough': {'child:' + c: 150 for c in CHILD}}
-REQUIRED['quick'].update({'stop:sigterm': 40, 'stop:terminate': 40, 'live_children>=2': 40})
+REQUIRED['quick'].update({'stop:sigterm': 40, 'stop:terminate': 40, 'stop:terminate_noforce': 15, 'live_children>=2': 40})
 
 
 def examples(tier):
@@ -39,7 +39,7 @@ def shards(tier):
 def strategy(tier):
     return st.fixed_dictionaries({
         'children': st.lists(st.sampled_from(CHILD), max_size=4),
-        'stop': st.sampled_from(['terminate', 'sigterm']),
+        'stop': st.sampled_from(['terminate', 'terminate', 'sigterm', 'sigterm', 'terminate_noforce']),
         'delay': st.sampled_from([0, 0.05, 0.5]),
     })
 
@@ -126,9 +126,9 @@ def run_case(case, ctx):
             time.sleep(case['delay'])
         t0 = time.monotonic()
         site = case['stop'] + ':' + '+'.join(sorted(set(case['children']))) if case['children'] else case['stop'] + ':no_children'
-        if case['stop'] == 'terminate':
+        if case['stop'] in ('terminate', 'terminate_noforce'):
             try:
-                r = bounded(srv.terminate, 40, timeout=10)
+                r = bounded(srv.terminate, 40, timeout=10) if case['stop'] == 'terminate' else bounded(srv.terminate, 40, timeout=10, force=False)
                 if r is not True:
                     out.viol('server_terminate_false', site, repr(r))
             except Blocked:
@@ -185,7 +185,7 @@ def run_case(case, ctx):
                 out.viol('parent_outcome_not_error', wsite, f'(has_error, result, error) = {(he, res, err)!r}')
             elif err is not None and not isinstance(err, WorkerTerminatedError):
                 out.viol('parent_wrong_error', wsite, repr(err))
-            elif err is None and c == 'coop' and all_coop and case['stop'] == 'terminate' and case['delay'] >= 0.5:
+            elif err is None and c == 'coop' and all_coop and case['stop'] in ('terminate', 'terminate_noforce') and case['delay'] >= 0.5:
                 out.viol('terminated_error_not_reported', wsite, 'cooperative child, graceful server.terminate(), yet error is None')
         out.obs = {'children': case['children'], 'stop': case['stop'], 'delay': case['delay'], 'elapsed': round(time.monotonic() - t0, 2), 'procs': len(mine)}
     finally:
